@@ -6,6 +6,7 @@
 import glob, hashlib, itertools, json, os, shutil, sys
 from verif.core import Check, pmap, run_main, scratch_root, REPO, NCPU
 from verif import projgen as pg
+from verif import c06lib as c6
 
 ENV_ORDERS = ['asis', 'reversed', 'sorted']
 DIR_ORDERS = ['native', 'reversed', 'sorted']
@@ -82,31 +83,92 @@ def order_env(env, mode):
     return dict(items)
 
 
+PLACEMENTS = ['sibling', 'nested', 'nested2', 'far']
+INVOCATIONS = ['abs', 'rel']
+
+
+def disk_base():
+    """A scratch base that is NOT below /dev (scratch_root() is /dev/shm/...): meson treats every path that starts with
+    '/dev/' as a device, so below /dev/shm the naming of regular files by absolute path behaves differently from any
+    real checkout.  Only the build-directory-placement family lives here; removed by the worker that made it."""
+    return os.environ.get('VERIF_C06_DISK') or '/var/tmp'
+
+
+def place(root, placement):
+    src = os.path.join(root, 'src')
+    return src, {'sibling': os.path.join(root, 'b'), 'nested': os.path.join(src, 'b'), 'nested2': os.path.join(src, 'out', 'b'),
+                 'far': os.path.join(root, 'elsewhere', 'deep', 'b')}[placement]
+
+
+def source_dirs(src, bdir):
+    """relative paths of the directories of the source tree (a build dir nested in it is not part of the sources)"""
+    out = []
+    for base, dirs, _ in os.walk(src):
+        dirs[:] = sorted(d for d in dirs if os.path.join(base, d) != bdir)
+        for d in dirs:
+            p = os.path.join(base, d)
+            if not bdir.startswith(p + os.sep):       # (src/out of the placement src/out/b exists for the build dir only)
+                out.append(os.path.relpath(p, src))
+    return sorted(out)
+
+
+VCS_MARKERS = ('.gitignore', '.hgignore', 'CACHEDIR.TAG')   # written only into a build directory that meson found empty
+
+
+def only_stale_include_args(a, b, stale, bdir):
+    """True if two file contents differ only in -I<dir> arguments for directories of `stale` (relative to the build dir
+    or absolute), apart from the random names of unnamed dependencies (a separate known finding)"""
+    import re
+    if not isinstance(a, bytes) or not isinstance(b, bytes) or not stale:
+        return False
+    alt = b'(?:' + re.escape(bdir.encode()) + b'/)?(?:' + b'|'.join(re.escape(d.encode()) for d in sorted(stale, key=len, reverse=True)) + b')'
+    rxs = [(re.compile(rb'"-I' + alt + rb'",\s*'), b''), (re.compile(rb',\s*"-I' + alt + rb'"'), b''),
+           (re.compile(rb'(?<![^\s"\'])-I' + alt + rb'(?![^\s"\'])[ ]?'), b''), (re.compile(rb'dep[0-9]{25,45}'), b'dep#')]
+
+    def norm(x):
+        for rx, to in rxs:
+            x = rx.sub(to, x)
+        return x
+    return norm(a) == norm(b)
+
+
 def explore(job):
     from verif import mesonproc as mp
-    idx, name, files, srcdir, seeds, setup_args, full = job
-    res = {'name': name, 'setups': 0, 'viol': [], 'files': 0, 'skip': None, 'compared': 0, 'orders_seen': 0}
-    root = os.path.join(scratch_root(), 'c06.%d' % os.getpid())
+    name, files, srcdir, seeds, setup_args, full = job['name'], job.get('files'), job.get('srcdir'), job['seeds'], tuple(job.get('setup_args', ())), job.get('full', True)
+    placement, matrix, owned, disk = job.get('placement', 'sibling'), job.get('matrix', True), job.get('owned'), job.get('disk', False)
+    res = {'name': name, 'setups': 0, 'viol': [], 'files': 0, 'skip': None, 'compared': 0, 'orders_seen': 0, 'placement': placement,
+           'stale_dirs': 0, 'stale_compared': 0, 'stale_skipped': 0, 'place_compared': 0, 'configure_outputs': 0}
+    root = os.path.join(disk_base() if disk else scratch_root(), ('verif-c06.%d' if disk else 'c06.%d') % os.getpid())
     shutil.rmtree(root, ignore_errors=True)
+    src, bdir = place(root, placement)
     if files is not None:
-        mp.write_tree(os.path.join(root, 'src'), files)
+        mp.write_tree(src, files)
     else:
-        shutil.copytree(srcdir, os.path.join(root, 'src'), symlinks=True)
-    src, bdir = os.path.join(root, 'src'), os.path.join(root, 'b')
+        shutil.copytree(srcdir, src, symlinks=True)
     base_env = mp.base_env(home=os.path.join(root, 'home'), CFLAGS='-DENV_CF', LDFLAGS='-Wl,-O1', CPPFLAGS='-DENV_CPP',
                            PKG_CONFIG_PATH=os.path.join(root, 'pc1') + ':' + os.path.join(root, 'pc0'), ZZZ_UNUSED='1', AAA_UNUSED='2')
     servers = {}
+    rep = {'project': name, 'files': files, 'srcdir': srcdir, 'setup_args': list(setup_args), 'placement': placement, 'matrix': matrix,
+           'owned': owned, 'disk': disk}
 
     def server(seed):
         if seed not in servers:
             servers[seed] = mp.Server(hashseed=seed)
         return servers[seed]
 
-    def setup(seed, eo, do, extra=(), fresh=True):
+    def setup(seed, eo, do, extra=(), fresh=True, inv='abs', predirs=()):
         if fresh:
             shutil.rmtree(bdir, ignore_errors=True)
+            for d in predirs:
+                os.makedirs(os.path.join(bdir, d))
         res['setups'] += 1
-        return server(seed).run(['setup', bdir, src] + list(setup_args) + list(extra), root, env=order_env(base_env, eo),
+        if inv == 'abs':
+            cwd, dirs = root, [bdir, src]
+        elif fresh:
+            cwd, dirs = src, [os.path.relpath(bdir, src)]                   # `meson setup <builddir>` run in the source root
+        else:
+            cwd, dirs = bdir, ['.', os.path.relpath(src, bdir)]              # reconfigured from inside the build directory
+        return server(seed).run(['setup'] + list(extra) + dirs + list(setup_args), cwd, env=order_env(base_env, eo),
                                 pre=('verif.hooks', 'dirlist_order', (do,)), timeout=120)
     try:
         r0 = setup(seeds[0], 'asis', 'native')
@@ -115,62 +177,133 @@ def explore(job):
             return res
         F0 = fingerprint(bdir)
         res['files'] = len(F0)
+        res['configure_outputs'] = sum(1 for rel in F0 if fclass(rel) == 'configure-output')
 
-        def compare(F, what, dim):
+        def compare(F, what, dim, stale=()):
             res['compared'] += 1
             for rel in sorted(set(F0) | set(F)):
                 if F0.get(rel) != F.get(rel):
+                    if stale and rel in VCS_MARKERS:
+                        continue           # not generated text of this property; meson adds them only to a directory it found empty
+                    r = dict(rep, file=rel, config=what)
+                    if 'lang' in job:
+                        r['cells'] = cells_in_difference(F0.get(rel), F.get(rel))
                     if anon_dep_only(F0.get(rel), F.get(rel)):
-                        res['viol'].append(('C06:differs:%s:anonymous-dependency-uuid' % fclass(rel), '%s: %s differs only in the random name dep<uuid> of an unnamed dependency (%s)' % (name, rel, what),
-                                            {'project': name, 'file': rel, 'config': what, 'files': files, 'srcdir': srcdir, 'setup_args': list(setup_args)}))
+                        res['viol'].append(('C06:differs:%s:anonymous-dependency-uuid' % fclass(rel), '%s: %s differs only in the random name dep<uuid> of an unnamed dependency (%s)' % (name, rel, what), r))
                         continue
-                    res['viol'].append(('C06:differs:%s:%s' % (fclass(rel), dim), '%s: %s differs from the baseline run under %s' % (name, rel, what),
-                                        {'project': name, 'file': rel, 'config': what, 'files': files, 'srcdir': srcdir, 'setup_args': list(setup_args)}))
-        # full cross product of fresh configurations
-        for seed, eo, do in itertools.product(seeds, ENV_ORDERS, DIR_ORDERS):
-            if (seed, eo, do) == (seeds[0], 'asis', 'native'):
-                continue
-            if not full and sum([seed != seeds[0], eo != 'asis', do != 'native']) > 1:
-                continue     # reduced matrix: one dimension at a time
-            r = setup(seed, eo, do)
-            if r.rc != 0:
-                res['viol'].append(('C06:setup-fails-under-variation', '%s: setup fails under seed=%s env=%s dir=%s: %s' % (name, seed, eo, do, r.out[-300:]),
-                                    {'project': name, 'config': [seed, eo, do], 'files': files, 'srcdir': srcdir}))
-                continue
-            dim = 'hashseed' if (eo, do) == ('asis', 'native') else ('environ-order' if (seed, do) == (seeds[0], 'native') else ('dirlist-order' if (seed, eo) == (seeds[0], 'asis') else 'combined'))
-            compare(fingerprint(bdir), 'PYTHONHASHSEED=%s environ=%s dirlist=%s' % (seed, eo, do), dim)
-        # histories: configured under one seed, reconfigured under another
-        for s1, s2 in [(seeds[-1], seeds[0]), (seeds[0], seeds[-1])]:
-            r = setup(s1, 'reversed', 'reversed')
-            r = setup(s2, 'asis', 'native', extra=['--reconfigure'], fresh=False)
-            if r.rc != 0:
-                res['viol'].append(('C06:reconfigure-fails', '%s: reconfigure fails: %s' % (name, r.out[-300:]), {'project': name, 'files': files, 'srcdir': srcdir}))
-                continue
-            compare(fingerprint(bdir), 'history: configured with seed %s, reconfigured with seed %s' % (s1, s2), 'history')
-            # no-op reconfigure
+                    if stale and only_stale_include_args(F0.get(rel), F.get(rel), stale, bdir):
+                        res['viol'].append(('C06:history:stale-builddir-subdir-adds-include-arg', '%s: %s differs only in -I<dir> arguments for directories that an earlier configuration left in the build directory (%s)' % (name, rel, what), r))
+                        continue
+                    res['viol'].append(('C06:differs:%s:%s' % (fclass(rel), dim), '%s: %s differs from the baseline run under %s%s%s' % (name, rel, what, first_diff(F0.get(rel), F.get(rel)), '; build-dir files named in the difference: ' + ' '.join(r['cells'][:6]) if r.get('cells') else ''), r))
+
+        def noop_reconfigure(seed, inv):
             before_f, before_s = fingerprint(bdir), stat_sig(bdir)
-            r = setup(s2, 'asis', 'native', extra=['--reconfigure'], fresh=False)
+            r = setup(seed, 'asis', 'native', extra=['--reconfigure'], fresh=False, inv=inv)
             after_f, after_s = fingerprint(bdir), stat_sig(bdir)
             if before_f.get('build.ninja') != after_f.get('build.ninja'):
-                res['viol'].append(('C06:noop-reconfigure-changes:build.ninja', '%s: build.ninja content changed by a no-op reconfigure' % name, {'project': name, 'files': files, 'srcdir': srcdir}))
+                res['viol'].append(('C06:noop-reconfigure-changes:build.ninja', '%s: build.ninja content changed by a no-op reconfigure%s' % (name, first_diff(before_f.get('build.ninja'), after_f.get('build.ninja'))), dict(rep)))
             for rel, h in before_f.items():
                 cls = fclass(rel)
                 if after_f.get(rel) != h and anon_dep_only(h, after_f.get(rel)):
-                    res['viol'].append(('C06:differs:%s:anonymous-dependency-uuid' % cls, '%s: %s changed by a no-op reconfigure only in the random name of an unnamed dependency' % (name, rel),
-                                        {'project': name, 'file': rel, 'files': files, 'srcdir': srcdir}))
+                    res['viol'].append(('C06:differs:%s:anonymous-dependency-uuid' % cls, '%s: %s changed by a no-op reconfigure only in the random name of an unnamed dependency' % (name, rel), dict(rep, file=rel)))
                 elif after_f.get(rel) != h:
-                    res['viol'].append(('C06:noop-reconfigure-changes:%s' % cls, '%s: %s content changed by a no-op reconfigure' % (name, rel), {'project': name, 'file': rel, 'files': files, 'srcdir': srcdir}))
-                elif cls in ('configure-output', 'pkgconfig') and before_s.get(rel) != after_s.get(rel) and files is not None:
-                    # (corpus projects may run their own configure-time commands that rewrite files: only generated
-                    # projects, whose every configure-time output is meson's own, are held to the mtime clause)
+                    if rel != 'build.ninja':
+                        res['viol'].append(('C06:noop-reconfigure-changes:%s' % cls, '%s: %s content changed by a no-op reconfigure%s' % (name, rel, first_diff(h, after_f.get(rel))), dict(rep, file=rel)))
+                elif cls in ('configure-output', 'pkgconfig') and before_s.get(rel) != after_s.get(rel) and files is not None and (owned is None or rel in owned):
+                    # (corpus projects may run their own configure-time commands that rewrite files: only outputs that
+                    # meson itself writes -- all of them in the projgen / hand-written projects, the `owned` ones of the
+                    # build-dir-io project -- are held to the mtime clause)
                     res['viol'].append(('C06:noop-reconfigure-touches:%s' % cls, '%s: %s was rewritten (mtime/inode changed) although its content is unchanged' % (name, rel),
-                                        {'project': name, 'file': rel, 'files': files, 'srcdir': srcdir, 'before': before_s.get(rel), 'after': after_s.get(rel)}))
+                                        dict(rep, file=rel, before=before_s.get(rel), after=after_s.get(rel))))
                 res['compared'] += 1
+
+        if matrix:
+            # full cross product of fresh configurations
+            for seed, eo, do in itertools.product(seeds, ENV_ORDERS, DIR_ORDERS):
+                if (seed, eo, do) == (seeds[0], 'asis', 'native'):
+                    continue
+                if not full and sum([seed != seeds[0], eo != 'asis', do != 'native']) > 1:
+                    continue     # reduced matrix: one dimension at a time
+                r = setup(seed, eo, do)
+                if r.rc != 0:
+                    res['viol'].append(('C06:setup-fails-under-variation', '%s: setup fails under seed=%s env=%s dir=%s: %s' % (name, seed, eo, do, r.out[-300:]),
+                                        dict(rep, config=[seed, eo, do])))
+                    continue
+                dim = 'hashseed' if (eo, do) == ('asis', 'native') else ('environ-order' if (seed, do) == (seeds[0], 'native') else ('dirlist-order' if (seed, eo) == (seeds[0], 'asis') else 'combined'))
+                compare(fingerprint(bdir), 'PYTHONHASHSEED=%s environ=%s dirlist=%s' % (seed, eo, do), dim)
+            # histories: configured under one seed, reconfigured under another
+            for s1, s2 in [(seeds[-1], seeds[0]), (seeds[0], seeds[-1])]:
+                r = setup(s1, 'reversed', 'reversed')
+                r = setup(s2, 'asis', 'native', extra=['--reconfigure'], fresh=False)
+                if r.rc != 0:
+                    res['viol'].append(('C06:reconfigure-fails', '%s: reconfigure fails: %s' % (name, r.out[-300:]), dict(rep)))
+                    continue
+                compare(fingerprint(bdir), 'history: configured with seed %s, reconfigured with seed %s' % (s1, s2), 'history')
+                noop_reconfigure(s2, 'abs')
+        else:
+            # build-directory placement family: per way of naming the directories on the command line a fresh build
+            # directory, the same reconfigured (other hash seed), reconfigured again with nothing changed, then wiped
+            tag = 'history@' + placement
+            for inv in INVOCATIONS:
+                s1, s2 = (seeds[0], seeds[-1]) if inv == 'abs' else (seeds[-1], seeds[0])
+                if inv != 'abs':          # (the baseline configuration is the fresh one with absolute directories)
+                    r = setup(s1, 'asis', 'native', inv=inv)
+                    if r.rc != 0:
+                        res['viol'].append(('C06:setup-fails-under-variation', '%s: setup fails with the build dir %s given %s: %s' % (name, placement, inv, r.out[-300:]), dict(rep, config=[placement, inv])))
+                        continue
+                    compare(fingerprint(bdir), 'build dir %s, directories given %s on the command line, fresh' % (placement, inv), 'invocation@' + placement)
+                    res['place_compared'] += 1
+                r = setup(s2, 'asis', 'native', extra=['--reconfigure'], fresh=False, inv=inv)
+                if r.rc != 0:
+                    res['viol'].append(('C06:reconfigure-fails', '%s: reconfigure fails (build dir %s, %s): %s' % (name, placement, inv, r.out[-300:]), dict(rep)))
+                    continue
+                compare(fingerprint(bdir), 'build dir %s (%s): configured with seed %s, reconfigured with seed %s' % (placement, inv, s1, s2), tag)
+                res['place_compared'] += 1
+                if inv == 'abs' or job.get('full'):
+                    noop_reconfigure(s2, inv)
+                    res['place_compared'] += 1
+            r = setup(seeds[0], 'asis', 'native', extra=['--wipe'], fresh=False)
+            if r.rc != 0:
+                res['viol'].append(('C06:reconfigure-fails', '%s: setup --wipe fails (build dir %s): %s' % (name, placement, r.out[-300:]), dict(rep)))
+            else:
+                compare(fingerprint(bdir), 'build dir %s: configured, reconfigured, then setup --wipe' % placement, tag)
+                res['place_compared'] += 1
+        # history: the build directory already holds (empty) directories, as an earlier configuration of an earlier
+        # version of the sources leaves them behind: one per directory of the source tree
+        stale = source_dirs(src, bdir) if matrix or full else []
+        if stale:
+            res['stale_dirs'] = len(stale)
+            r = setup(seeds[0], 'asis', 'native', predirs=stale)
+            if r.rc != 0:
+                res['stale_skipped'] += 1      # e.g. an output file of the same name as a source directory: not a matter of this property
+            else:
+                res['stale_compared'] += 1
+                compare(fingerprint(bdir), 'history: the build directory already contained the empty directories %s' % ' '.join(stale[:6]), 'history-stale-dirs', stale=stale)
     finally:
         for s in servers.values():
             s.close()
         shutil.rmtree(root, ignore_errors=True)
     return res
+
+
+def first_diff(a, b):
+    """short description of the first differing line of two kept-verbatim file contents"""
+    if not isinstance(a, bytes) or not isinstance(b, bytes):
+        return ''
+    la, lb = a.decode('utf-8', 'replace').splitlines(), b.decode('utf-8', 'replace').splitlines()
+    sa, sb = set(la), set(lb)
+    minus = [l for l in la if l not in sb][:1]
+    plus = [l for l in lb if l not in sa][:1]
+
+    def short(l):
+        # keep the part of the two lines that differs
+        return l if len(l) < 300 else l[:120] + ' ... ' + l[-120:]
+    if minus and plus:
+        wa, wb = minus[0].split(), plus[0].split()
+        only_b = [w for w in wb if w not in set(wa)][:4]
+        only_a = [w for w in wa if w not in set(wb)][:4]
+        return ' [first differing line: baseline-only words %s, other-only words %s]' % (only_a, only_b)
+    return ' [baseline-only line %r, other-only line %r]' % (short(minus[0]) if minus else None, short(plus[0]) if plus else None)
 
 
 def seed_orders(seeds):
@@ -184,6 +317,110 @@ def seed_orders(seeds):
     return len(orders)
 
 
+MACHINE_FILE_TEXT = "[properties]\nverif_prop = 'x'\n"
+MF_KINDS = ['native', 'cross']
+MF_FORMS = ['regular', 'pipe']
+
+
+def explore_machine_files(job):
+    """Same sources, same options, where one option is a machine file: given as a regular file or through a pipe (as
+    `--native-file <(cmd)` does), for --native-file and --cross-file.  Two fresh configurations at the same paths must
+    agree byte for byte."""
+    import re, subprocess
+    from verif import mesonproc as mp
+    name, files, seeds = job['name'], job['files'], job['seeds']
+    res = {'name': name, 'setups': 0, 'viol': [], 'files': 0, 'skip': None, 'compared': 0, 'placement': 'sibling', 'stale_dirs': 0, 'mf_compared': 0, 'mf_pipe_copies': 0}
+    root = os.path.join(scratch_root(), 'c06.%d' % os.getpid())
+    shutil.rmtree(root, ignore_errors=True)
+    src, bdir = place(root, 'sibling')
+    mp.write_tree(src, files)
+    base_env = mp.base_env(home=os.path.join(root, 'home'))
+    ini, fifo = os.path.join(root, 'machine.ini'), os.path.join(root, 'machine.fifo')
+    with open(ini, 'w') as f:
+        f.write(MACHINE_FILE_TEXT)
+    os.mkfifo(fifo)
+    rx = re.compile(rb'[0-9a-f]{8}-[0-9a-f]{4}-[0-9a-f]{4}-[0-9a-f]{4}-[0-9a-f]{12}(?=\.(?:native|cross)\.ini)')
+    srv = mp.Server(hashseed=seeds[0])
+    try:
+        for kind, form in itertools.product(job.get('kinds', MF_KINDS), MF_FORMS):
+            F = []
+            for rnd in range(2):
+                shutil.rmtree(bdir, ignore_errors=True)
+                feeder = subprocess.Popen(['sh', '-c', 'cat "$0" > "$1"', ini, fifo]) if form == 'pipe' else None
+                res['setups'] += 1
+                r = srv.run(['setup', bdir, src, '--%s-file' % kind, fifo if form == 'pipe' else ini], root, env=base_env, timeout=120)
+                if feeder is not None:
+                    if feeder.poll() is None and r.rc != 0:
+                        feeder.kill()
+                    feeder.wait()
+                if r.rc != 0:
+                    res['viol'].append(('C06:setup-fails-under-variation', '%s: setup fails with --%s-file given as a %s: %s' % (name, kind, form, r.out[-300:]),
+                                        {'project': name, 'files': files, 'machine_files': True, 'kinds': [kind]}))
+                    break
+                F.append(fingerprint(bdir))
+                if form == 'pipe':
+                    res['mf_pipe_copies'] += len(glob.glob(os.path.join(bdir, 'meson-private', '*.%s.ini' % kind)))
+            if len(F) < 2:
+                continue
+            res['mf_compared'] += 1
+            res['files'] = len(F[0])
+            for rel in sorted(set(F[0]) | set(F[1])):
+                x, y = F[0].get(rel), F[1].get(rel)
+                if x == y:
+                    continue
+                rep = {'project': name, 'files': files, 'machine_files': True, 'kinds': [kind], 'file': rel}
+                if form == 'pipe' and isinstance(x, bytes) and isinstance(y, bytes) and rx.sub(b'#', x) == rx.sub(b'#', y):
+                    res['viol'].append(('C06:machine-file-from-pipe:random-copy-name', '%s: %s of two fresh configurations with --%s-file read from a pipe differs in the random name meson-private/<uuid4>.%s.ini of the copy' % (name, rel, kind, kind), rep))
+                else:
+                    res['viol'].append(('C06:differs:%s:machine-file-%s' % (fclass(rel), form), '%s: %s differs between two fresh configurations with --%s-file given as a %s%s' % (name, rel, kind, form, first_diff(x, y)), rep))
+    finally:
+        srv.close()
+        shutil.rmtree(root, ignore_errors=True)
+    return res
+
+
+def cells_in_difference(a, b):
+    """ids of the build-dir-io cells (c06lib) whose file names occur in words that only one of the two contents has"""
+    import re
+    if not isinstance(a, bytes) or not isinstance(b, bytes):
+        return []
+    wa, wb = set(a.split()), set(b.split())
+    rx = re.compile(rb'(?:sub/)?(?:%s)_(?:%s)_(?:%s)' % ('|'.join(c6.WRITERS).encode(), '|'.join(c6.READERS).encode(), '|'.join(c6.ORDERS).encode()))
+    found = set()
+    for w in wa ^ wb:
+        found.update(m.decode() for m in rx.findall(w))
+    order = {'%s_%s_%s' % c: i for i, c in enumerate(c6.cells())}
+    return sorted(found, key=lambda c: (order.get(c.split('/')[-1], 99), c))
+
+
+def explore_and_reduce(job):
+    """explore(); for the build-dir-io grid project a violation is re-run with the single implicated cell, simplest first,
+    so that the first witness reported is a two-statement project"""
+    import time
+    t0 = time.time()
+    if job.get('machine_files'):
+        return explore_machine_files(job)
+    res = explore(job)
+    res['wall'] = time.time() - t0
+    if 'lang' in job and res['viol'] and not job.get('single'):
+        cells = []
+        for _, _, rep in res['viol']:
+            for c in rep.get('cells', []):
+                c = c.split('/')[-1]
+                if c not in cells:
+                    cells.append(c)
+        minimal = []
+        for c in cells[:3]:
+            files, owned = c6.bdio_project(job['lang'], only=[tuple(c.split('_'))])
+            r = explore(dict(job, name=job['name'] + ':' + c, files=files, owned=owned, single=True))
+            res['setups'] += r['setups']
+            if r['viol']:
+                minimal = r['viol']
+                break
+        res['viol'] = minimal + res['viol']
+    return res
+
+
 def main():
     ck = Check('C06', 'exploration')
     from verif import mesonproc as mp
@@ -191,20 +428,27 @@ def main():
     seeds = [(s + ck.seed * 16) for s in seeds]
     if ck.args.replay:
         d = json.load(open(ck.args.replay))
-        r = explore((0, d['project'], d.get('files'), d.get('srcdir'), seeds[:4], tuple(d.get('setup_args', [])), True))
+        job = {'name': d['project'], 'files': d.get('files'), 'srcdir': d.get('srcdir'), 'seeds': seeds[:4], 'setup_args': d.get('setup_args', []), 'full': True,
+               'placement': d.get('placement', 'sibling'), 'matrix': d.get('matrix', True), 'owned': d.get('owned'), 'disk': d.get('disk', False)}
+        if d.get('machine_files'):
+            job.update(machine_files=True, kinds=d.get('kinds', MF_KINDS))
+        r = explore_and_reduce(dict(job, single=True))
         for k, w, _ in r['viol']:
             print(k, w)
+        print('expected: every generated text file identical to the baseline configuration; observed: %d difference(s)' % len(r['viol']))
         sys.exit(1 if r['viol'] else 0)
+    stale_tmp_cleanup()
     jobs = []
-    idx = 0
-    jobs.append((idx, 'rich', RICH, None, seeds, (), ck.thorough)); idx += 1
-    jobs.append((idx, 'rich-unity-flat', RICH, None, seeds, ('--unity=on', '--layout=flat'), ck.thorough)); idx += 1
-    jobs.append((idx, 'nolang', NOLANG, None, seeds, (), True)); idx += 1
+    jobs.append({'name': 'rich', 'files': RICH, 'seeds': seeds, 'full': ck.thorough})
+    jobs.append({'name': 'rich-unity-flat', 'files': RICH, 'seeds': seeds, 'setup_args': ('--unity=on', '--layout=flat'), 'full': ck.thorough})
+    jobs.append({'name': 'nolang', 'files': NOLANG, 'seeds': seeds, 'full': True})
     specs = list(pg.enumerate_specs(3))
     pick = [s for i, s in enumerate(specs) if len(s) == 3 and i % (97 if not ck.thorough else 29) == ck.seed % 29]
+    gen = []
     for spec in pick:
         r = pg.render(spec, 'sub' if pg.placement_ok(spec, 'sub') else 'root', install=True)
-        jobs.append((idx, 'gen:' + r.desc, r.files, None, seeds, (), ck.thorough)); idx += 1
+        gen.append(r)
+        jobs.append({'name': 'gen:' + r.desc, 'files': r.files, 'seeds': seeds, 'full': ck.thorough})
     corpus = []
     for d in sorted(glob.glob(os.path.join(REPO, 'test cases', 'common', '*'))):
         if os.path.isfile(os.path.join(d, 'meson.build')):
@@ -212,30 +456,95 @@ def main():
     step = 25 if not ck.thorough else 8
     for i, d in enumerate(corpus):
         if i % step == ck.seed % step:
-            jobs.append((idx, 'corpus:' + os.path.basename(d), None, d, seeds, (), ck.thorough)); idx += 1
+            jobs.append({'name': 'corpus:' + os.path.basename(d), 'srcdir': d, 'seeds': seeds, 'full': ck.thorough})
+    # build-directory placement family: where the build directory lies relative to the sources x how the directories are
+    # named on the command line x {fresh, reconfigured, reconfigured again, wiped}, for projects whose configuration
+    # writes files into the build directory and names them again (c06lib), outside /dev (see disk_base)
+    pjobs = []
+    for lang in (None, 'c'):
+        files, owned = c6.bdio_project(lang, subgrid=(lang is None or ck.thorough))
+        for pl in PLACEMENTS:
+            pjobs.append({'name': 'bdio%s@%s' % ('-' + lang if lang else '', pl), 'files': files, 'owned': owned, 'lang': lang, 'seeds': seeds,
+                          'placement': pl, 'matrix': False, 'disk': True, 'full': ck.thorough})
+    others = [('nolang', NOLANG)] + ([('rich', RICH)] + [('gen:' + r.desc, r.files) for r in gen[:6]] if ck.thorough else [])
+    for nm, files in others:
+        for pl in PLACEMENTS:
+            pjobs.append({'name': '%s@%s' % (nm, pl), 'files': files, 'seeds': seeds, 'placement': pl, 'matrix': False, 'disk': True, 'full': ck.thorough})
+    mjobs = [{'name': 'nolang+machine-file', 'files': NOLANG, 'seeds': seeds, 'machine_files': True, 'matrix': False}]
+    mtot = {'setups': 0, 'pairs_compared': 0, 'pipe_copies_seen': 0}
     tot = {'projects': 0, 'skipped': 0, 'setups': 0, 'files': 0, 'comparisons': 0}
+    ptot = {'projects': 0, 'setups': 0, 'comparisons': 0, 'configure_outputs_in_builddir': 0}
+    stot = {'projects_with_source_subdirs': 0, 'stale_dirs_precreated': 0, 'compared': 0, 'skipped_unspecified': 0}
+    pseen = set()
     classes = set()
-    for res in pmap(explore, jobs, jobs=min(NCPU, 16 if not ck.thorough else 8), chunksize=1):
-        if res['skip']:
-            tot['skipped'] += 1
-            continue
-        tot['projects'] += 1
-        tot['setups'] += res['setups']
-        tot['files'] += res['files']
-        tot['comparisons'] += res['compared']
-        classes.add((res['name'].split(':')[0], min(res['files'] // 5, 8)))
-        ck.sample({'project': res['name'], 'generated_files_compared': res['files'], 'setups': res['setups']}, cap=6)
+    alljobs = jobs + pjobs + mjobs
+    for i, res in enumerate(pmap(explore_and_reduce, alljobs, jobs=min(NCPU, 16 if not ck.thorough else 8), chunksize=1)):
+        job = alljobs[i]
+        if os.environ.get('VERIF_C06_TIMES'):
+            print('  %-40s setups=%3d wall=%.1fs' % (res['name'][:40], res['setups'], res.get('wall', 0)), file=sys.stderr)
         for key, what, rep in res['viol']:
             ck.violation(key, what, rep)
+        if job.get('machine_files'):
+            mtot['setups'] += res['setups']
+            mtot['pairs_compared'] += res['mf_compared']
+            mtot['pipe_copies_seen'] += res['mf_pipe_copies']
+            continue
+        if res['skip']:
+            tot['skipped'] += 1
+            if not job.get('matrix', True):
+                ck.internal('placement project %s does not configure: the family would be vacuous' % res['name'])
+            continue
+        t = tot if job.get('matrix', True) else ptot
+        t['projects'] += 1
+        t['setups'] += res['setups']
+        if job.get('matrix', True):
+            tot['files'] += res['files']
+            tot['comparisons'] += res['compared']
+            classes.add((res['name'].split(':')[0], min(res['files'] // 5, 8)))
+        else:
+            ptot['comparisons'] += res['place_compared']
+            ptot['configure_outputs_in_builddir'] += res['configure_outputs']
+            pseen.add(res['placement'])
+            classes.add(('placement:' + res['placement'], min(res['files'] // 5, 8)))
+        if res['stale_dirs']:
+            stot['projects_with_source_subdirs'] += 1
+            stot['stale_dirs_precreated'] += res['stale_dirs']
+            stot['compared'] += res['stale_compared']
+            stot['skipped_unspecified'] += res['stale_skipped']
+        ck.sample({'project': res['name'], 'generated_files_compared': res['files'], 'setups': res['setups']}, cap=6)
     ck.part('matrix', seeds=len(seeds), distinct_set_orders_realised=seed_orders(seeds), env_orders=len(ENV_ORDERS), dir_orders=len(DIR_ORDERS), **tot)
+    ck.part('builddir-placement', placements=len(pseen), invocations=len(INVOCATIONS), histories_per_invocation=3, builddir_io_cells=len(c6.cells()),
+            outside_dev=not disk_base().startswith('/dev/'), **ptot)
+    ck.part('history-stale-dirs', **stot)
+    ck.part('machine-file-forms', kinds=len(MF_KINDS), forms=len(MF_FORMS), **mtot)
+    ck.require(mtot['pairs_compared'] == len(MF_KINDS) * len(MF_FORMS) and mtot['pipe_copies_seen'] >= 2 * len(MF_KINDS), 'machine-file family did not run (no pipe was copied)')
     ck.require(tot['projects'] >= 5 and tot['comparisons'] > 100, 'too few projects')
+    ck.require(len(pseen) == len(PLACEMENTS) and ptot['comparisons'] >= 7 * len(PLACEMENTS) * 2 and ptot['configure_outputs_in_builddir'] >= len(PLACEMENTS) * len(c6.cells()),
+               'build-directory placement family did not run in full')
+    ck.require(not disk_base().startswith('/dev/'), 'the placement family must live outside /dev (meson ignores paths that start with /dev/)')
+    ck.require(stot['compared'] >= 5, 'stale-directory history compared for too few projects')
     ck.assume('hash-seed independence is decided for the listed seeds only (the seed space cannot be enumerated)')
     ck.assume('mtime/inode stability is required of configure_file outputs and generated .pc files; build.ninja and meson-info/* are only required to keep their content')
-    ck.finish(evaluations=tot['setups'], distinct_nontrivial=len(classes),
-              rule='per project the full product of %d hash seeds x 3 environ orders x 3 directory-listing orders of fresh setups at identical paths (quick tier: full product for the language-less project, one dimension at a time for the others), plus cross-seed reconfigure and no-op reconfigure histories; '
+    ck.assume('generated text legitimately depends on where the build directory lies (relative paths): every comparison is between configurations at the same absolute source and build paths')
+    ck.finish(evaluations=tot['setups'] + ptot['setups'] + mtot['setups'], distinct_nontrivial=len(classes),
+              rule='per project the full product of %d hash seeds x 3 environ orders x 3 directory-listing orders of fresh setups at identical paths (quick tier: full product for the language-less project, one dimension at a time for the others), plus cross-seed reconfigure and no-op reconfigure histories '
+                   'and a fresh build directory that already holds the (empty) directories an earlier configuration would have left; '
                    'projects: two hand-written rich projects (pkgconfig, configure_file, install rules, tests, subprojects, options), a language-less one, projgen shapes and corpus projects. '
-                   'distinct_nontrivial = distinct (project family, number-of-generated-files bucket)' % len(seeds),
+                   'Build-directory placement family: %d placements (sibling of the sources, nested in them, nested two levels, elsewhere) x 2 ways of naming the directories (absolute; relative from the source root / from inside the build dir) '
+                   'x {fresh, reconfigured under another seed, reconfigured again, wiped}, for a project holding the full grid of %d (writer x reader x order) ways in which configuration creates a file in the build directory and names it again (with and without a C target) and the language-less project, run outside /dev. '
+                   'distinct_nontrivial = distinct (project family or placement, number-of-generated-files bucket)' % (len(seeds), len(PLACEMENTS), len(c6.cells())),
               exhaustive=True)
+
+
+def stale_tmp_cleanup():
+    """remove placement scratch trees that a killed earlier run left outside tmpfs (older than two hours)"""
+    import time
+    for p in glob.glob(os.path.join(disk_base(), 'verif-c06.*')):
+        try:
+            if time.time() - os.lstat(p).st_mtime > 7200:
+                shutil.rmtree(p, ignore_errors=True)
+        except OSError:
+            pass
 
 
 run_main(main)
